@@ -1,7 +1,7 @@
 (** C10 — boundary events: interrupting replaces the normal flow, non-interrupting adds.
     Model: Model/Boundary.v — the activity harness as an LTS over any number of entering tokens, any
     boundary events, any schedule of deliveries, listener decisions and answers. *)
-From BV Require Import Model.Boundary Proofs.BoundaryProofs Model.Arming Proofs.ArmingProofs Model.Catch Proofs.CatchProofs Gen.Facts.
+From BV Require Import Model.Boundary Proofs.BoundaryProofs Model.Arming Proofs.ArmingProofs Model.Catch Proofs.CatchProofs Model.TokenNumbers Proofs.TokenNumbersProofs Gen.Facts.
 Open Scope nat_scope.
 
 (* REPLACES, NOT ADDS — every token that entered left by the normal flow, was withdrawn, or is still
@@ -98,3 +98,15 @@ Theorem C10_fresh_start_refuted_when_reset_skips_idle_listeners :
   c_conts (crun true false ms) = 2 /\ c_conts (crun true true ms) = 1 /\ c_waiting (crun true true ms) = 1.
 Proof. exact refuted_reset_only_when_waiting. Qed.
 Print Assumptions C10_fresh_start_refuted_when_reset_skips_idle_listeners.
+
+(* EACH ANSWER FINDS ITS OWN TOKEN (Model/TokenNumbers.v: the numbers the harness gives the tokens inside an activity):
+   whatever the order in which tokens enter and leave, the tokens inside carry pairwise different numbers *)
+Theorem C10_tokens_inside_have_distinct_numbers : forall p, NoDup (inside_ (hrun true p)).
+Proof. exact numbers_distinct. Qed.
+Print Assumptions C10_tokens_inside_have_distinct_numbers.
+(* numbered by the count of tokens inside (a seeded change): two inside, the older leaves, a third enters — two tokens
+   share a number, one answer goes to the wrong token and the other is lost *)
+Theorem C10_distinct_numbers_refuted_when_numbered_by_count :
+  inside_ (hrun false [HEnter; HEnter; HLeave 0; HEnter]) = [2; 2] /\ inside_ (hrun true [HEnter; HEnter; HLeave 0; HEnter]) = [2; 3].
+Proof. exact refuted_numbered_by_count. Qed.
+Print Assumptions C10_distinct_numbers_refuted_when_numbered_by_count.
